@@ -63,47 +63,66 @@ def Err.toString : Err → String
   | .notInOrder => "E:ValueError" | .keyError => "E:KeyError" | .noParents => "E:IndexError"
   | .sameRevid => "E:AssertionError"
 
+/-- `skipped`: skipped (fully merged) merge revision ↦ the new parent standing in for it -/
+abbrev Skipped := List (Key × Key)
+
+/-- `skipped.get(k)` -/
+def lookupSkipped : Skipped → Key → Option Key
+  | [], _ => none
+  | kv :: rest, k => if kv.1 = k then some kv.2 else lookupSkipped rest k
+
+/-- what stands for old parent `k` in the new history: `replace_map[k][0]` if it
+has an entry, else `skipped[k]` -/
+def standIn (plan : Plan) (sk : Skipped) (k : Key) : Option Key :=
+  match lookupNew plan k with
+  | some n => some n
+  | none => lookupSkipped sk k
+
 /-- new left parent(s): `onto` if the old left parent is already merged into
-`onto`, the rewritten left parent if there is one, else `onto` plus the old one -/
-def leftParents (g : PMap) (onto : Key) (plan : Plan) (p0 : Key) : Key × List Key :=
+`onto`, its stand-in if it was rewritten or skipped, else `onto` plus the old one -/
+def leftParents (g : PMap) (onto : Key) (plan : Plan) (sk : Skipped) (p0 : Key) : Key × List Key :=
   if mergedInto g p0 onto then (onto, [])
-  else match lookupNew plan p0 with
+  else match standIn plan sk p0 with
     | some n => (n, [])
     | none => (onto, [p0])
 
 /-- one iteration of the `for oldparent in oldparents[1:]` loop; `ps` = `parents`
 as (first, rest) -/
-def addParent (g : PMap) (onto : Key) (plan : Plan) (addl : List Key)
+def addParent (g : PMap) (onto : Key) (plan : Plan) (sk : Skipped) (addl : List Key)
     (ps : Key × List Key) (op : Key) : Key × List Key :=
   if op ∈ addl then
     if mergedInto g op onto then ps
-    else match lookupNew plan op with
-      | some n => if ps.1 = onto then (n, ps.2) else (ps.1, ps.2 ++ [n])
+    else match standIn plan sk op with
+      | some n =>
+        if n ∈ ps.1 :: ps.2 then ps   -- already a parent (via a skipped merge)
+        else if ps.1 = onto then (n, ps.2) else (ps.1, ps.2 ++ [n])
       | none => (ps.1, ps.2 ++ [op])
   else ps
 
 /-- new parents of `old` whose old parents are `p0 :: rest` -/
-def newParents (g : PMap) (onto : Key) (plan : Plan) (p0 : Key) (rest : List Key) : Key × List Key :=
-  rest.foldl (addParent g onto plan (headsOf g rest)) (leftParents g onto plan p0)
+def newParents (g : PMap) (onto : Key) (plan : Plan) (sk : Skipped) (p0 : Key) (rest : List Key) :
+    Key × List Key :=
+  rest.foldl (addParent g onto plan sk (headsOf g rest)) (leftParents g onto plan sk p0)
 
-/-- body of the `for oldrevid in todo` loop -/
-def planStep (g : PMap) (gen : Key → Key) (onto : Key) (skip : Bool) (plan : Plan) (old : Key) :
-    Except Err Plan :=
+/-- body of the `for oldrevid in todo` loop; state = (`replace_map`, `skipped`) -/
+def planStep (g : PMap) (gen : Key → Key) (onto : Key) (skip : Bool) (st : Plan × Skipped) (old : Key) :
+    Except Err (Plan × Skipped) :=
   match parentsOf g old with
   | none => .error .keyError
   | some [] => .error .noParents
   | some (p0 :: rest) =>
-    let ps := newParents g onto plan p0 rest
-    if !rest.isEmpty && ps.2.isEmpty && skip then .ok plan
+    let ps := newParents g onto st.1 st.2 p0 rest
+    if !rest.isEmpty && ps.2.isEmpty && skip then .ok (st.1, st.2 ++ [(old, ps.1)])
     else if gen old = old then .error .sameRevid
-    else .ok (plan ++ [⟨old, gen old, ps.1 :: ps.2⟩])
+    else .ok (st.1 ++ [⟨old, gen old, ps.1 :: ps.2⟩], st.2)
 
-def planLoop (g : PMap) (gen : Key → Key) (onto : Key) (skip : Bool) : Plan → List Key → Except Err Plan
-  | plan, [] => .ok plan
-  | plan, old :: todo =>
-    match planStep g gen onto skip plan old with
+def planLoop (g : PMap) (gen : Key → Key) (onto : Key) (skip : Bool) :
+    Plan × Skipped → List Key → Except Err (Plan × Skipped)
+  | st, [] => .ok st
+  | st, old :: todo =>
+    match planStep g gen onto skip st old with
     | .error e => .error e
-    | .ok plan' => planLoop g gen onto skip plan' todo
+    | .ok st' => planLoop g gen onto skip st' todo
 
 def indexOf? (l : List Key) (k : Key) : Option Nat :=
   let i := l.findIdx (· == k)
@@ -139,7 +158,10 @@ def simplePlan (g : PMap) (gen : Key → Key) (todoS order : List Key) (start st
       | .error e => .error e
       | .ok startK =>
         match indexOf? order startK, indexOf? order stopK with
-        | some i, some j => planLoop g gen onto skip [] ((order.drop i).take (j + 1 - i))
+        | some i, some j =>
+          match planLoop g gen onto skip ([], []) ((order.drop i).take (j + 1 - i)) with
+          | .ok st => .ok st.1
+          | .error e => .error e
         | _, _ => .error .notInOrder
 
 /-- `rebase_todo(repository, replace_map)`; `revs` = revisions the repository has -/
